@@ -11,10 +11,13 @@ import (
 	"github.com/gin-gonic/gin"
 	"github.com/sirupsen/logrus"
 
+	"github.com/free5gc/chf/ccs_diameter/datatype"
 	"github.com/free5gc/chf/cdr/cdrType"
+	"github.com/free5gc/chf/internal/abmf"
 	"github.com/free5gc/chf/internal/cgf"
 	chf_context "github.com/free5gc/chf/internal/context"
 	"github.com/free5gc/chf/internal/logger"
+	"github.com/free5gc/chf/internal/rating"
 	"github.com/free5gc/chf/internal/sbi"
 	"github.com/free5gc/chf/internal/sbi/consumer"
 	"github.com/free5gc/chf/internal/sbi/processor"
@@ -281,4 +284,23 @@ func RunSBIServer() error {
 	}
 	var wg sync.WaitGroup
 	return s.Run(context.Background(), &wg)
+}
+
+// ClientSUR sends a service-usage request through the CHF's own rating client (internal/rating) on behalf of the
+// subscriber, whose context is created if need be, and returns what the client hands to the processor.
+func ClientSUR(supi string, sur *datatype.ServiceUsageRequest) (*datatype.ServiceUsageResponse, error) {
+	ue, err := chf_context.GetSelf().NewCHFUe(supi)
+	if err != nil {
+		return nil, err
+	}
+	return rating.SendServiceUsageRequest(ue, sur)
+}
+
+// ClientCCR does the same through the account-balance client (internal/abmf).
+func ClientCCR(supi string, ccr *datatype.AccountDebitRequest) (*datatype.AccountDebitResponse, error) {
+	ue, err := chf_context.GetSelf().NewCHFUe(supi)
+	if err != nil {
+		return nil, err
+	}
+	return abmf.SendAccountDebitRequest(ue, ccr)
 }
